@@ -196,10 +196,61 @@ func discharge(o *Oblig, lits []*Term, workDir string, idx int, tsec int, allAgr
 		return v
 	}
 	nUnsat := 0
+	// Quantifier instantiation can be derailed by hypotheses the goal does not need. Dropping hypotheses only weakens what is
+	// assumed, so a proof from a subset is a proof: retry with each quantified hypothesis left out in turn (in parallel).
+	subsetsTried := false
+	trySubsets := func(maxHyps, budget int) bool {
+		var qidx []int
+		for i, h := range o.Hyps {
+			if hasQuant(h) {
+				qidx = append(qidx, i)
+			}
+		}
+		if len(qidx) == 0 || len(qidx) > maxHyps {
+			return false
+		}
+		subsetsTried = true
+		type res struct {
+			ok   bool
+			secs float64
+		}
+		ch := make(chan res, len(qidx))
+		for _, drop := range qidx {
+			go func(drop int) {
+				o2 := *o
+				o2.Hyps = nil
+				for i, h := range o.Hyps {
+					if i != drop {
+						o2.Hyps = append(o2.Hyps, h)
+					}
+				}
+				f2 := fmt.Sprintf("%s.drop%d.smt2", file, drop)
+				os.WriteFile(f2, []byte(smtText(&o2, lits, false)), 0o644)
+				first, _, secs := runSolver(backends[0], f2, budget)
+				rmQuery(f2)
+				ch <- res{first == "unsat", secs}
+			}(drop)
+		}
+		proved := false
+		for range qidx {
+			r := <-ch
+			v.Seconds += r.secs
+			if r.ok {
+				proved = true
+			}
+		}
+		v.Tried = append(v.Tried, fmt.Sprintf("z3-new(subsets):%v", proved))
+		if proved {
+			v.Status = "discharged"
+			v.Backend = "z3-new (subset of hypotheses)"
+			rmQuery(file)
+		}
+		return proved
+	}
 	// staged attempts: each stage only drops or instantiates hypotheses, so a proof at any stage is a proof of the obligation
 	staged := func(scale int) bool {
 		// attempt 1: the full obligation with a short budget (most discharge at once)
-		first, out, secs := runSolver(backends[0], file, 2*scale)
+		first, out, secs := runSolver(backends[0], file, 5*scale)
 		v.Seconds += secs
 		if first == "unsat" {
 			v.Status, v.Backend = "discharged", backends[0].name
@@ -210,12 +261,58 @@ func discharge(o *Oblig, lits []*Term, workDir string, idx int, tsec int, allAgr
 			v.Status, v.Backend, v.Output = "failed", backends[0].name, truncate(out, 20000)
 			return true
 		}
+		// the quantifier-free version built by ground instantiation (see instantiate.go): cheap when it works, so it is tried early
+		// with a short budget and once more at the end with a long one
+		groundState := ""
+		tryGround := func(budget int) bool {
+			g := groundVersion(o, lits)
+			if g == nil {
+				return false
+			}
+			var qfLits []*Term
+			for _, l := range lits {
+				if !hasQuant(l) {
+					qfLits = append(qfLits, l)
+				}
+			}
+			f2 := file + ".ground.smt2"
+			os.WriteFile(f2, []byte(smtText(g, qfLits, false)), 0o644)
+			first, _, secs := runSolver(backends[0], f2, budget)
+			v.Seconds += secs
+			v.Tried = append(v.Tried, "z3-new(ground):"+first)
+			groundState = first
+			rmQuery(f2)
+			if first == "unsat" {
+				v.Status = "discharged"
+				v.Backend = "z3-new (ground instances)"
+				rmQuery(file)
+				return true
+			}
+			return false
+		}
+		if tryGround(6 * scale) {
+			return true
+		}
 		// attempt 1b: only the quantified hypotheses that share a symbol with the goal (dropping hypotheses only weakens what is
 		// assumed, so a proof from a subset is a proof); unrelated invariants otherwise derail instantiation
+		if o0 := relevantVersionN(o, -1); o0 != nil {
+			f2 := file + ".rel0.smt2"
+			os.WriteFile(f2, []byte(smtText(o0, lits, false)), 0o644)
+			first, _, secs := runSolver(backends[0], f2, 4*scale)
+			v.Seconds += secs
+			v.Tried = append(v.Tried, "z3-new(relevant-exact):"+first)
+			rmQuery(f2)
+			if first == "unsat" {
+				v.Status = "discharged"
+				v.Backend = "z3-new (relevant hypotheses)"
+				rmQuery(file)
+				return true
+			}
+		}
 		if o2 := relevantVersion(o); o2 != nil {
 			f2 := file + ".rel.smt2"
 			os.WriteFile(f2, []byte(smtText(o2, lits, false)), 0o644)
-			first, _, secs := runSolver(backends[0], f2, 3*scale)
+			first, _, secs := runSolver(backends[0], f2, 8*scale)
 			v.Seconds += secs
 			v.Tried = append(v.Tried, "z3-new(relevant):"+first)
 			rmQuery(f2)
@@ -227,7 +324,7 @@ func discharge(o *Oblig, lits []*Term, workDir string, idx int, tsec int, allAgr
 			}
 			if o3 := relevantVersionN(o, 1); o3 != nil && len(o3.Hyps) != len(o2.Hyps) {
 				os.WriteFile(f2, []byte(smtText(o3, lits, false)), 0o644)
-				first, _, secs := runSolver(backends[0], f2, 3*scale)
+				first, _, secs := runSolver(backends[0], f2, 8*scale)
 				v.Seconds += secs
 				v.Tried = append(v.Tried, "z3-new(relevant+1):"+first)
 				rmQuery(f2)
@@ -246,12 +343,12 @@ func discharge(o *Oblig, lits []*Term, workDir string, idx int, tsec int, allAgr
 			for ci, oc := range cases {
 				f2 := fmt.Sprintf("%s.case%d.smt2", file, ci)
 				os.WriteFile(f2, []byte(smtText(oc, lits, false)), 0o644)
-				first, _, secs := runSolver(backends[0], f2, 3*scale)
+				first, _, secs := runSolver(backends[0], f2, 6*scale)
 				v.Seconds += secs
 				if first != "unsat" {
 					if rv := relevantVersion(oc); rv != nil {
 						os.WriteFile(f2, []byte(smtText(rv, lits, false)), 0o644)
-						first, _, secs = runSolver(backends[0], f2, 3*scale)
+						first, _, secs = runSolver(backends[0], f2, 6*scale)
 						v.Seconds += secs
 					}
 				}
@@ -269,28 +366,15 @@ func discharge(o *Oblig, lits []*Term, workDir string, idx int, tsec int, allAgr
 				return true
 			}
 		}
-		// attempt 2: the quantifier-free version built by ground instantiation (see instantiate.go)
-		if g := groundVersion(o, lits); g != nil {
-			var qfLits []*Term
-			for _, l := range lits {
-				if !hasQuant(l) {
-					qfLits = append(qfLits, l)
-				}
-			}
-			f2 := file + ".ground.smt2"
-			os.WriteFile(f2, []byte(smtText(g, qfLits, false)), 0o644)
-			first, _, secs := runSolver(backends[0], f2, 6*scale)
-			v.Seconds += secs
-			v.Tried = append(v.Tried, "z3-new(ground):"+first)
-			rmQuery(f2)
-			if first == "unsat" {
-				v.Status = "discharged"
-				v.Backend = "z3-new (ground instances)"
-				rmQuery(file)
+		if !o.ExpectFail && trySubsets(8, 8*scale) {
+			return true
+		}
+		if groundState == "timeout" || groundState == "unknown" {
+			if tryGround(20 * scale) {
 				return true
 			}
 		}
-			return false
+		return false
 	}
 	if !qf && !allAgree {
 		if staged(1) {
@@ -335,51 +419,9 @@ func discharge(o *Oblig, lits []*Term, workDir string, idx int, tsec int, allAgr
 			return v
 		}
 	}
-	if nUnsat == 0 && !qf && !o.ExpectFail {
-		// Quantifier instantiation can be derailed by hypotheses the goal does not need. Dropping hypotheses only weakens what is
-		// assumed, so a proof from a subset is a proof: retry with each quantified hypothesis left out in turn (in parallel).
-		var qidx []int
-		for i, h := range o.Hyps {
-			if hasQuant(h) {
-				qidx = append(qidx, i)
-			}
-		}
-		if len(qidx) > 0 && len(qidx) <= 24 {
-			type res struct {
-				ok   bool
-				secs float64
-			}
-			ch := make(chan res, len(qidx))
-			for _, drop := range qidx {
-				go func(drop int) {
-					o2 := *o
-					o2.Hyps = nil
-					for i, h := range o.Hyps {
-						if i != drop {
-							o2.Hyps = append(o2.Hyps, h)
-						}
-					}
-					f2 := fmt.Sprintf("%s.drop%d.smt2", file, drop)
-					os.WriteFile(f2, []byte(smtText(&o2, lits, false)), 0o644)
-					first, _, secs := runSolver(backends[0], f2, 6)
-					rmQuery(f2)
-					ch <- res{first == "unsat", secs}
-				}(drop)
-			}
-			proved := false
-			for range qidx {
-				r := <-ch
-				v.Seconds += r.secs
-				if r.ok {
-					proved = true
-				}
-			}
-			if proved {
-				v.Status = "discharged"
-				v.Backend = "z3-new (subset of hypotheses)"
-				rmQuery(file)
-				return v
-			}
+	if nUnsat == 0 && !qf && !o.ExpectFail && !subsetsTried {
+		if trySubsets(24, 6) {
+			return v
 		}
 	}
 	if nUnsat == 0 && !qf {
@@ -492,7 +534,11 @@ func relevantVersionN(o *Oblig, level int) *Oblig {
 		tmp := map[string]bool{}
 		symbolsOf(t, tmp)
 		for k := range tmp {
-			out[baseSymbol(k)] = true
+			if level < 0 {
+				out[k] = true // exact names: only hypotheses about the very same memory generation
+			} else {
+				out[baseSymbol(k)] = true
+			}
 		}
 	}
 	gs := map[string]bool{}
